@@ -34,7 +34,7 @@ for m in sorted(glob.glob('/verif/seeded/*/meta.json')):
 out.append("")
 out.append("%d of %d seeded changes are caught by the check of the property they were aimed at."%(own,n))
 out.append("")
-out.append("""**First-pass misses and what they led to.** The table shows the state after strengthening. When the first round (ids ending in -a/-b) arrived, these were *not* yet caught by the rules that existed and led to new clauses, not to special cases: C07-b → ORD-4 "no acknowledgement left queued on an error return"; C02-b → ORD-4 "a packet is kept for retry only after a durable record change"; C06-b → ORD-11 "a parked BigMessage is served, cleared or dropped on every path"; C11-a → TOK-12 (registry discipline); C11-b → ORD-6 "requests released after the write token was exchanged"; C12-a → ORD-8 "cancel before waiting for connSem"; C05-b was at first reported by ORD-2 for the wrong reason (an unrecognised comparison form) → comparisons are normalised and the clause "submitN advances only behind a nil write" was added; C10-b and C12-b were caught by rules that were not yet listed under their own property (TOK-1 added to C10, ORD-7 to C12). The sub-agents also reported two genuine defects of the unchanged tree that they had to steer around (F17, F18; §5).""")
+out.append("""**First-pass misses and what they led to.** The table shows the state after strengthening. When the first round (ids ending in -a/-b) arrived, these were *not* yet caught by the rules that existed and led to new clauses, not to special cases: C07-b → ORD-4 "no acknowledgement left queued on an error return"; C02-b → ORD-4 "a packet is kept for retry only after a durable record change"; C06-b → ORD-11 "a parked BigMessage is served, cleared or dropped on every path"; C11-a → TOK-12 (registry discipline); C11-b → ORD-6 "requests released after the write token was exchanged"; C12-a → ORD-8 "cancel before waiting for connSem"; C05-b was at first reported by ORD-2 for the wrong reason (an unrecognised comparison form) → comparisons are normalised and the clause "submitN advances only behind a nil write" was added; C10-b and C12-b were caught by rules that were not yet listed under their own property (TOK-1 added to C10, ORD-7 to C12). A second round (ids ending in -c/-d; each agent was told which changes were already taken for its property and asked for a different mechanism) produced 40 more. Not caught at first: C19-c (failure cleanup removes the final file) → ORD-9 "cleanup removes the spool file only"; C09-d (validator and encoder disagree on when the Will is enabled) → COD-7 guard agreement; C20-c (early return before the filter comparison) → MCK-1 "an expectation that was taken is compared"; C14-d (ReadBackoff case order) → ERR-5 converse clauses; C06-d (deadline re-armed only when the buffer is empty) → ORD-14 requires the buffered amount to cover the amount read; C10-c (progress baseline hoisted out of the retry loop) → ORD-13 clause for the payload retry; C04-d (marker saved for every non-PUBACK) → ORD-4 "marker Save only for PUBREC"; C11-c (callback removed but not answered) → TOK-13 "a removed callback is answered on every return"; C08-d (Ping returns another answer after its write failed) → ERR-7; C01-d/C05-d (volatile store keeps the caller's buffer) → OWN-9; C03-d (continuity test without the roll-over case) → ADP-8 sibling predicate; C16-d (gap test on the uncleaned list) → ADP-4 extended to every read after cleaning; C01-c, C02-d, C05-c, C06-c, C11-d, C12-c, C13-c, C16-c were caught by rules not yet listed under their own property (lists extended). The sub-agents also reported two genuine defects of the unchanged tree that they had to steer around (F17, F18; §5).""")
 out.append("")
 open(D,'w').write(head+"\n".join(out)+"\n")
 print(n,own)
